@@ -3,6 +3,7 @@ import ProbLogProofs.Lemmas.SemWorlds
 import ProbLogProofs.Lemmas.SemGamma
 import ProbLogProofs.Lemmas.SemRules
 import ProbLogProofs.Lemmas.SemDefinite
+import ProbLogProofs.Lemmas.SemWfm
 /-!
 # C01 — theorems about the *specification* `Sem` itself (the reference the C01/C02/C07/C08 checks execute)
 
@@ -87,6 +88,40 @@ example : (relevantAtoms [⟨0, [1], [2], none⟩, ⟨3, [0], [], none⟩] 4 [0]
   decide
 example : Reach 4 [⟨0, [1], [2], none⟩, ⟨3, [0], [], none⟩] [0] 2 :=
   .step (r := ⟨0, [1], [2], none⟩) (.root (by decide) (by decide)) (by decide) (by decide) (by decide)
+
+/-! ## the alternating fixpoint -/
+
+/-- The fuel `natoms + 1` of `wfm` is sufficient: the result `(T, U)` satisfies `U = Γ(T)` and `T = Γ(U)`, `T ⊆ U`,
+    and `T` is reached by iterating `Γ²` from the empty set (so it is the least fixpoint of `Γ²`: the well-founded
+    model). No hypothesis. -/
+theorem C01_wfm_fixpoint (rules : List Rule) (chosen : Array Bool) (natoms : Nat) :
+    (wfm rules chosen natoms).2 = gamma rules chosen natoms (wfm rules chosen natoms).1 ∧
+    (wfm rules chosen natoms).1 = gamma rules chosen natoms (wfm rules chosen natoms).2 ∧
+    (∃ m, (wfm rules chosen natoms).1 = SemWfm.tseq rules chosen natoms m) ∧
+    (∀ X : Array Bool, X.size = natoms → gamma rules chosen natoms (gamma rules chosen natoms X) = X →
+      Le (wfm rules chosen natoms).1 X) ∧
+    Le (wfm rules chosen natoms).1 (wfm rules chosen natoms).2 := by
+  obtain ⟨m, e, f⟩ := SemWfm.wfm_spec rules chosen natoms
+  rw [e]
+  have hleast : ∀ X : Array Bool, X.size = natoms → gamma rules chosen natoms (gamma rules chosen natoms X) = X →
+      Le (SemWfm.tseq rules chosen natoms m) X := by
+    intro X hX hfix
+    generalize m = k
+    induction k with
+    | zero => intro i hi; simp [SemWfm.tseq, getB_replicate] at hi
+    | succ k ih =>
+      rw [← hfix]
+      exact SemWfm.gamma_antimono _ _ _ (SemWfm.gamma_antimono _ _ _ ih)
+  have f' : gamma rules chosen natoms (gamma rules chosen natoms (SemWfm.tseq rules chosen natoms m)) =
+      SemWfm.tseq rules chosen natoms m := f
+  refine ⟨rfl, f'.symm, ⟨m, rfl⟩, hleast, hleast _ (gamma_size _ _ _ _) ?_⟩
+  show gamma rules chosen natoms (gamma rules chosen natoms (gamma rules chosen natoms _)) = _
+  rw [f']
+
+-- non-vacuity: `a0 :- \\+a1. a1 :- \\+a0. a2 :- \\+a2, a0. a3.`: a3 true, the rest undefined
+example : ((wfm [⟨0, [], [1], none⟩, ⟨1, [], [0], none⟩, ⟨2, [0], [2], none⟩, ⟨3, [], [], none⟩] #[] 4).1.toList,
+    (wfm [⟨0, [], [1], none⟩, ⟨1, [], [0], none⟩, ⟨2, [0], [2], none⟩, ⟨3, [], [], none⟩] #[] 4).2.toList) =
+    ([false, false, false, true], [true, true, true, true]) := by decide
 
 /-! ## definite programs -/
 
